@@ -731,7 +731,7 @@ theorem gp_index_dot {t : Tk} {l idx : Node} (ht : t.type = .DOT) (hl : GP s l) 
     simp only [Bool.or_eq_true, decide_eq_true_eq, not_or, Nat.not_lt] at hn
     exact dot_body ht (lp_dot hl c ap ws) (ip_dot hi hfi c ap) (dotLeft_pos hfl c ap ws) P i j res hc.1 hseg (by omega) (hstop.mono hn.2)
 
-/-- every tree of the fragment has the round-trip property -/
+/-! every tree of the fragment has the round-trip property -/
 mutual
 theorem gp_node (s : TokStream) : ∀ (t : Node), fragN t = true → GP s t
   | .ident t, h => by simp only [fragN, beq_iff_eq] at h; exact (gpa_ident t h).gp
